@@ -11,7 +11,7 @@ def single(text):
     return [("a.s", text)]
 
 
-def stage_compare(ctx, stores, stages, tag="st", limit_ms=8000):
+def stage_compare(ctx, stores, stages, tag="st", limit_ms=4000):
     """stores: list of (files, base).  Returns (n_evaluations, disagreements, outcome histogram)."""
     dis, hist, n = [], {}, 0
     for st in stages:
@@ -21,6 +21,11 @@ def stage_compare(ctx, stores, stages, tag="st", limit_ms=8000):
             n += 1
             kind = "cfgerror" if a.startswith("CE(") else ("timeout" if a in ("TIMEOUT", "CRASH") else ("panic" if a == "PANIC" else "graph"))
             hist[st + ":" + kind] = hist.get(st + ":" + kind, 0) + 1
+            if a in ("TIMEOUT", "CRASH") and b != a:
+                # the implementation hung before it could tell which exits it chose (hash-order dependent,
+                # C06 known findings); without that oracle the model cannot be run on the same choices
+                hist[st + ":skipped-timeout"] = hist.get(st + ":skipped-timeout", 0) + 1
+                continue
             if a != b:
                 dis.append(dict(stage=st, files=sb[0], base=sb[1], first_difference=first_diff(a, b)))
     return n, dis, hist
@@ -81,6 +86,8 @@ def diag_compare(ctx, stores, tag="dg", limit_ms=10000, release=False):
         sa, ia = parse_diag_line(a)
         sm, im = parse_diag_line(b)
         parsed.append((sa, ia, sm, im))
+        if sa == "timeout" and sm != "timeout":
+            continue   # see stage_compare: no exit oracle available
         if sa != sm:
             dis.append(dict(files=sb[0], base=sb[1], why="implementation %s, model %s" % (sa, sm)))
         elif sa == "ok":
